@@ -8,6 +8,7 @@
 From Coq Require Import List Bool Arith Permutation NArith ZArith.
 Import ListNotations.
 From SioV Require Import Base.GoSem Eio.Packet Eio.Batcher.
+From SioV Require Eio.Limits.
 From SioV Require Import Base.Conc Sio.Pipeline.
 From SioV Require Import Sio.EndToEnd Sio.EndToEndInst Sio.EndToEndReal Sio.EndToEndSched.
 
@@ -213,6 +214,30 @@ Section C01_real_transport.
           (args_named name name_eqb arg (hname name h) (map fst (concat ems))).
   Proof.
     exact (real_ws_exactly_once name arg offset dstate name_eqb name_eqb_eq off_arg enc d0 dec_step
+             C09_codec_roundtrip C09_frames_are_message_packets hs C18_registrations_distinct).
+  Qed.
+
+  (** "Any size up to the limit announced in the handshake" (websocket, both directions): the
+      receiver's decision is C13's model of the code ([Limits.decide], server reads with
+      MaxBufferSize, client with the announced maxPayload - after fix b9ea39c); if every frame of
+      every event fits the announced limit, every send cut by the real batcher is accepted and
+      every handler gets the events of its name exactly once, intact. *)
+  Theorem C01_announced_limit_websocket :
+    forall (lc : Limits.cfg) (d : Limits.direction) (c : cfg)
+           (ems : list (list (event name arg * offset))) tr (maxp : Z) polling,
+      client_strips_offset c = false ->
+      Interleave ems tr ->
+      let frames := wire name arg offset off_arg packet enc c tr in
+      let batches := write_writable maxp polling frames in
+      frames_within_announced lc frames ->
+      sig_matches name arg hs (map fst (concat ems)) ->
+      forall h, In h hs ->
+        Permutation
+          (handed arg (hid name h)
+             (real_deliveries_c13 name arg dstate name_eqb d0 dec_step hs lc d c batches))
+          (args_named name name_eqb arg (hname name h) (map fst (concat ems))).
+  Proof.
+    exact (real_ws_announced_limit name arg offset dstate name_eqb name_eqb_eq off_arg enc d0 dec_step
              C09_codec_roundtrip C09_frames_are_message_packets hs C18_registrations_distinct).
   Qed.
 End C01_real_transport.
